@@ -136,7 +136,7 @@ def run(tier):
                            % (p, E.exit_description(f, esc)))
 
     # R6: disposing of a run empties the run-scoped stacks
-    ck.rule("R6.abort-clears-stacks", "the function that disposes of an active run clears the call stack, the scope guards the run pushed and its export table", floor=3)
+    ck.rule("R6.abort-clears-stacks", "the function that disposes of an active run clears the call stack, the scope guards the run pushed, its export table and what of it was waiting to be resumed", floor=5)
     disposers = [f for f in fx.fns.values() if not f.closure and f.path.startswith("interpreter::Interpreter::") and
                  any(st_[0] == "a" and F.place_fields(st_[1]) and F.place_fields(st_[1])[-1][2] == "active_vm" and
                      ((st_[2][0] == "agg" and st_[2][1].get("v") == "None") or
@@ -155,9 +155,10 @@ def run(tier):
                 if fl and fl[0] == INTERP:
                     cleared.add(fl[2])
         for st_ in [st_ for bl in f.blocks for st_ in bl["s"]]:
-            if st_[0] == "a" and F.place_fields(st_[1]) and F.place_fields(st_[1])[-1][0] == INTERP and F.place_fields(st_[1])[-1][2] in ("call_stack", "env_guards", "exports"):
+            if st_[0] == "a" and F.place_fields(st_[1]) and F.place_fields(st_[1])[-1][0] == INTERP and F.place_fields(st_[1])[-1][2] in (
+                    "call_stack", "env_guards", "exports", "suspended_for_order", "wait_graph"):
                 cleared.add(F.place_fields(st_[1])[-1][2])
-        for fld in ("call_stack", "env_guards", "exports"):
+        for fld in ("call_stack", "env_guards", "exports", "suspended_for_order", "wait_graph"):
             ok = fld in cleared
             ck.instance("R6.abort-clears-stacks", "%s clears %s" % (f.path, fld), F.short_span(f.span), ok=ok)
             if not ok:
@@ -165,6 +166,8 @@ def run(tier):
                            "`%s` disposes of a run the host stopped stepping but leaves `%s` as the run left it: a run abandoned inside calls and blocks "
                            "keeps its %s (call_depth() stays above 0 / the objects of its scopes stay rooted: +6 live objects per abandoned run)"
                            % (f.path, fld, "call-stack entries" if fld == "call_stack" else "scope guards" if fld == "env_guards" else
+                              "suspended continuation (the next program's completion is reported as Suspended because something of the dead run still waits)"
+                              if fld in ("suspended_for_order", "wait_graph") else
                               "exports (the export table is drained only when a run is finalised: `export const stale = 1; throw ..` leaves `stale` for the next module's namespace)"))
 
     # R6b: a new main run starts with an empty export table (eval() has no disposer of its own: its failing exits just return)
@@ -279,6 +282,12 @@ def run(tier):
         # the abort is on the true edge and the test dominates every install and every bookkeeping write
         if any(pr.dominates(tt, a) for a in aborts) and all(pr.dominates(sb, b) for b in must):
             ok = True
+        # `if a.is_some() || b.is_some() || ..  { abort }`: from the true edge of the test every path to an install / bookkeeping write passes the abort
+        # (followed path-sensitively through the boolean temporary of the `||` chain)
+        elif aborts and all(pr.dominates(sb, b) for b in must):
+            reach = M.reach_bool_sensitive(fx, pr, [tt], stop=set(aborts))
+            if not (reach - set(aborts)) & set(must):
+                ok = True
     if aborts and not tests and all(any(pr.dominates(a, b) for a in aborts) for b in must):
         ok = True
     ck.instance("R4.prepare-disposes", "prepare", F.short_span(pr.span), ok=ok)
@@ -286,6 +295,21 @@ def run(tier):
         ck.finding("R4.prepare-disposes", "R4.prepare-disposes/prepare", F.short_span(pr.span),
                    "prepare() overwrites active_vm / active_saved_env of a run the host stopped stepping without restoring its environment: the abandoned "
                    "program's scope stays installed")
+    # R4c: a run the host stopped stepping can sit in three places: an active VM, a continuation parked for an order, contexts in the wait graph
+    ck.rule("R4c.disposal-test-covers-slots", "prepare() decides whether to dispose of a previous run by looking at every slot a stopped run can live in "
+                                              "(active_vm, suspended_for_order, wait_graph)", floor=3)
+    looked = set()
+    for bi, t in pr.calls():
+        if t[2] and t[2][0][0] in ("c", "m") and any(bi in pr.reachable_to(a) if hasattr(pr, "reachable_to") else a in pr.reachable_from(bi) for a in aborts):
+            fl = E.field_of_ref(pr, t[2][0][1][0])
+            if fl and fl[0] == INTERP and fl[2] in ("active_vm", "suspended_for_order", "wait_graph"):
+                looked.add(fl[2])
+    for slot in ("active_vm", "suspended_for_order", "wait_graph"):
+        ck.instance("R4c.disposal-test-covers-slots", "prepare looks at %s before deciding" % slot, F.short_span(pr.span), ok=slot in looked)
+        if slot not in looked:
+            ck.finding("R4c.disposal-test-covers-slots", "R4c.disposal-test-covers-slots/prepare/%s" % slot, F.short_span(pr.span),
+                       "prepare() does not look at `%s` when it decides whether a previous run must be disposed of: a run abandoned while it was suspended there "
+                       "keeps its scope installed and its continuation waiting - `prepare('1 + 1')` after an abandoned `await new Promise(() => {})` reports Suspended" % slot)
     # R3b: once step() has rebuilt or stepped a VM, every error it returns goes through the disposal of the run
     ck.rule("R3b.step-error-exits", "step(): every Err exit that lies behind the reconstruction (from_saved_state) or the stepping of a VM passes abort/finalize", floor=2)
     closers3 = [t[4] for bi, t in st.calls() if (t[1].get("d") or "").endswith(("Interpreter::abort_active_execution", "Interpreter::finalize_active_execution"))
